@@ -44,7 +44,7 @@ contract(f'{TC}::TrajectoryCalc.zero_angle', props=('C02', 'C10'),
          use={f'{TC}::TrajectoryCalc._integrate': ['returns-the-recorded-rows-at-least-one',
                                                     'zeroing-run-height-is-a-function-of-the-elevation-used']})
 
-contract(f'{TC}::TrajectoryCalc.trajectory', props=('C10',),
+contract(f'{TC}::TrajectoryCalc.trajectory', props=('C10', 'C03', 'C11'),
          params=dict(self=Built(tc.TrajectoryCalc, config_shape()), shot_info=SHOT,
                      max_range=QDist(Unit.Yard, value=Real(lo=0, hi=5000)), dist_step=QDist(Unit.Yard, value=Real(lo=0, hi=5000)),
                      extra_data=Enum(False, True), time_step=Real(lo=0)),
@@ -53,7 +53,14 @@ contract(f'{TC}::TrajectoryCalc.trajectory', props=('C10',),
          ensures=[('returns-rows', 'len(result) >= 1')],
          modifies=ONLY_THE_CALCULATOR, reveal=['line_through'], modular=True,
          result_shape=None,
-         use={f'{TC}::TrajectoryCalc._integrate': ['returns-the-recorded-rows-at-least-one']})
+         use={f'{TC}::TrajectoryCalc._integrate': ['returns-the-recorded-rows-at-least-one']},
+         # what the request becomes for the integrator (C03: rows up to the REQUESTED range at the REQUESTED step; C11)
+         at_calls={f'{TC}::TrajectoryCalc._integrate': [
+             ('integrates-this-shot', 'same_object(shot_info, caller_shot_info)'),
+             ('integrates-to-the-requested-horizontal-range', 'maximum_range == old(raw(max_range)) / 12'),
+             ('records-at-the-requested-step-with-or-without-extra-data', 'record_step == old(raw(dist_step)) / 12'),
+             ('range-rows-only-or-all-flags-with-extra-data', 'filter_flags == (31 if old(extra_data) else 8)'),
+             ('time-step-passed-through', 'time_step == old(time_step)')]})
 from pyvc.contract import REGISTRY  # noqa: E402
 from .lookup import ROW  # noqa: E402
 REGISTRY[f'{TC}::TrajectoryCalc.trajectory'].result_shape = ListOf(ROW, minlen=1).alternatives()[0]
@@ -88,4 +95,12 @@ contract(f'{IF}::Calculator.fire', props=('C10', 'C03'),
          raises={'RangeError': None},
          ensures=[('result-carries-the-shot-and-the-extra-flag', 'same_object(result.shot, shot) and result.extra == extra_data')],
          modifies=['self._calc.*', '*._defined_units'],
-         use={f'{TC}::TrajectoryCalc.trajectory': ['returns-rows']})
+         use={f'{TC}::TrajectoryCalc.trajectory': ['returns-rows']},
+         at_calls={f'{TC}::TrajectoryCalc.trajectory': [
+             ('computes-this-shot', 'same_object(shot_info, caller_shot)'),
+             ('to-the-requested-range-bare-numbers-in-the-preferred-unit',
+              'raw(max_range) == (raw(old(trajectory_range)) if is_quantity(old(trajectory_range)) else '
+              'old(trajectory_range) * 36)'),
+             ('at-the-requested-step-one-tenth-of-the-range-by-default',
+              'raw(dist_step) == (raw(max_range) / 10 if not is_quantity(old(trajectory_step)) else raw(old(trajectory_step)))'),
+             ('extra-data-and-time-step-passed-through', 'extra_data == old(extra_data) and time_step == old(time_step)')]})
